@@ -5,6 +5,7 @@ import (
 	"encoding/xml"
 	"io/ioutil"
 	"log"
+	"net/http"
 	"net/http/httptest"
 	"sort"
 	"strconv"
@@ -176,6 +177,10 @@ func runNeg(raw Sx) (Sx, Sx) {
 			restful.EnableTracing(false)
 		}()
 	}
+	other, hasOther := "", false
+	if len(sxList(raw)) > 7 {
+		other, hasOther = sxStr(sxNth(raw, 7)), true
+	}
 	c := restful.NewContainer()
 	ws := new(restful.WebService)
 	ws.Path("/n")
@@ -188,12 +193,23 @@ func runNeg(raw Sx) (Sx, Sx) {
 	if len(produces) > 0 {
 		b.Produces(produces...)
 	}
+	if hasOther && len(accept)%4 == 1 {
+		// an http middleware in front of the route hands on a request of its own making whose Accept header is another
+		// one: the entity is negotiated with the header the client sent
+		b.Filter(restful.HttpMiddlewareHandlerToFilter(func(next http.Handler) http.Handler {
+			return http.HandlerFunc(func(w http.ResponseWriter, r *http.Request) {
+				r2 := r.Clone(r.Context())
+				if other == "" {
+					r2.Header.Del("Accept")
+				} else {
+					r2.Header.Set("Accept", other)
+				}
+				next.ServeHTTP(w, r2)
+			})
+		}))
+	}
 	ws.Route(b)
 	c.Add(ws)
-	other, hasOther := "", false
-	if len(sxList(raw)) > 7 {
-		other, hasOther = sxStr(sxNth(raw, 7)), true
-	}
 	var serve func(times int) (int, Ls, Ls, Ls)
 	serveWith := func(accept string, times int) (int, Ls, Ls, Ls) {
 		panicked := 0
